@@ -2,6 +2,7 @@ import MidnightZK.Model.C11.Jubjub
 import MidnightZK.Proofs.C11.Edwards
 import MidnightZK.Proofs.C11.Jubjub
 import MidnightZK.Proofs.C11.Toy
+import MidnightZK.Proofs.C11.Weierstrass
 import MidnightZK.Model.C11.Params
 import MidnightZK.Model.C11.Codec
 import MidnightZK.Gen.C11Constants
@@ -165,6 +166,161 @@ theorem ext_is_identity_iff [DecidableEq F] (P : Ext F) (hP : P.z ≠ 0) :
 
 example : (Ext.identity : Ext Toy.K).isIdentity = true :=
   (ext_is_identity_iff _ identity_spec.1.z_ne).2 identity_spec.2
+
+/-! ## Short-Weierstrass types: `derive/curve.rs` (BN254, pure Rust) and the G1/G2 wrappers -/
+section weierstrass
+open Bn
+
+/-- `impl Add<&$name> for &$name` (Renes–Costello–Batina Algorithm 7, `a = 0`), fraction-free:
+for ALL points of the curve (any representation, including `Z = 0`, `P = ±Q`), with the chord
+data `u = X₂Z₁ - X₁Z₂`, `v = Y₂Z₁ - Y₁Z₂`, the result `(X₃ : Y₃ : Z₃)` satisfies the
+cross-multiplied chord equations `x₃ = λ² - x₁ - x₂`, `y₃ = λ(x₁ - x₃) - y₁` (`λ = v/u`), and lies
+on the curve. Holds over any commutative ring, hence for `Fq` and `Fq2`. -/
+theorem bn_add_projective_spec {R : Type} [Lean.Grind.CommRing R] (b : R) (P Q : Proj R)
+    (h1 : POn b P) (h2 : POn b Q) :
+    let r := addRaw (b + b + b) P Q
+    let u := Q.x * P.z - P.x * Q.z
+    let v := Q.y * P.z - P.y * Q.z
+    POn b r ∧
+    r.x * (u * u * (P.z * Q.z)) = r.z * (v * v * (P.z * Q.z) - (P.x * Q.z + Q.x * P.z) * (u * u)) ∧
+    r.y * (u * P.z) = v * (P.x * r.z - r.x * P.z) - P.y * u * r.z :=
+  ⟨addRaw_on_curve b P Q h1 h2, addRaw_chord b P Q h1 h2⟩
+
+example : POn (3 : Toy.K) (addRaw (3 + 3 + 3) ⟨1, 2, 1⟩ ⟨3, 2, 1⟩) :=
+  (bn_add_projective_spec 3 ⟨1, 2, 1⟩ ⟨3, 2, 1⟩ (by unfold POn; decide) (by unfold POn; decide)).1
+
+/-- Mixed addition (Algorithm 8), fraction-free, for every projective `P` and affine `(x₂, y₂)`
+on the curve. -/
+theorem bn_mixed_projective_spec {R : Type} [Lean.Grind.CommRing R] (b : R) (P : Proj R) (x2 y2 : R)
+    (h1 : POn b P) (h2 : y2 * y2 = x2 * x2 * x2 + b) :
+    let r := addMixedRaw (b + b + b) P x2 y2
+    let u := x2 * P.z - P.x
+    let v := y2 * P.z - P.y
+    r.x * (u * u * P.z) = r.z * (v * v * P.z - (P.x + x2 * P.z) * (u * u)) ∧
+    r.y * (u * P.z) = v * (P.x * r.z - r.x * P.z) - P.y * u * r.z :=
+  addMixedRaw_chord b P x2 y2 h1 h2
+
+example : (addMixedRaw ((3 : Toy.K) + 3 + 3) ⟨1, 2, 1⟩ 3 2).x * ((3 * 1 - 1) * (3 * 1 - 1) * 1)
+    = (addMixedRaw ((3 : Toy.K) + 3 + 3) ⟨1, 2, 1⟩ 3 2).z *
+      ((2 * 1 - 2) * (2 * 1 - 2) * 1 - (1 + 3 * 1) * ((3 * 1 - 1) * (3 * 1 - 1))) :=
+  (bn_mixed_projective_spec 3 ⟨1, 2, 1⟩ 3 2 (by unfold POn; decide) (by decide)).1
+
+/-- `Group::double` (Algorithm 9), fraction-free tangent equations, and closure. -/
+theorem bn_double_projective_spec {R : Type} [Lean.Grind.CommRing R] (b : R) (P : Proj R)
+    (h1 : POn b P) :
+    let r := doubleRaw (b + b + b) P
+    let w := P.x * P.x + P.x * P.x + P.x * P.x
+    let s := (P.y + P.y) * P.z
+    POn b r ∧
+    r.x * (s * s * P.z) = r.z * (w * w * P.z - (P.x + P.x) * (s * s)) ∧
+    r.y * (s * P.z) = w * (P.x * r.z - r.x * P.z) - P.y * s * r.z :=
+  ⟨doubleRaw_on_curve b P h1, doubleRaw_tangent b P h1⟩
+
+example : POn (3 : Toy.K) (doubleRaw (3 + 3 + 3) ⟨1, 2, 1⟩) :=
+  (bn_double_projective_spec 3 ⟨1, 2, 1⟩ (by unfold POn; decide)).1
+
+/-- Exceptional operands of Algorithm 7 are handled by the same formula: adding the identity
+`(0 : 1 : 0)` returns the other operand scaled by its `Y`, and `P + (-P)` has `X₃ = Z₃ = 0`. -/
+theorem bn_add_exceptional {R : Type} [Lean.Grind.CommRing R] (b : R) (P : Proj R) (h : POn b P) :
+    addRaw (b + b + b) P ⟨0, 1, 0⟩ = ⟨P.x * P.y, P.y * P.y, P.z * P.y⟩ ∧
+    addRaw (b + b + b) ⟨0, 1, 0⟩ P = ⟨P.x * P.y, P.y * P.y, P.z * P.y⟩ ∧
+    (addRaw (b + b + b) P P.neg).x = 0 ∧ (addRaw (b + b + b) P P.neg).z = 0 :=
+  ⟨addRaw_identity_right _ P, addRaw_identity_left _ P, addRaw_neg b P h⟩
+
+example : (addRaw ((3 : Toy.K) + 3 + 3) ⟨1, 2, 1⟩ (Proj.neg ⟨1, 2, 1⟩)).z = 0 :=
+  (bn_add_exceptional 3 ⟨1, 2, 1⟩ (by unfold POn; decide)).2.2.2
+
+variable [DecidableEq F]
+
+/-- Affine reading of Algorithm 7: two finite points with different abscissae are sent to the
+chord-law sum. PARTIAL: `Z₃ ≠ 0` is a hypothesis — its proof is the completeness of the
+Renes–Costello–Batina formulas on curves without points of order two, which is not formalised
+here (the correspondence run exercises it on every operand class). -/
+theorem bn_add_spec_partial (b : F) (P Q : Proj F) (h1 : POn b P) (h2 : POn b Q)
+    (hz1 : P.z ≠ 0) (hz2 : Q.z ≠ 0) (hu : Q.x * P.z - P.x * Q.z ≠ 0)
+    (hz3 : (addRaw (b + b + b) P Q).z ≠ 0) :
+    homToAffine (addRaw (b + b + b) P Q).x (addRaw (b + b + b) P Q).y (addRaw (b + b + b) P Q).z
+      = wAdd (0 : F) (homToAffine P.x P.y P.z) (homToAffine Q.x Q.y Q.z) :=
+  addRaw_affine b P Q h1 h2 hz1 hz2 hu hz3
+
+example : homToAffine (addRaw ((3 : Toy.K) + 3 + 3) ⟨1, 2, 1⟩ ⟨3, 2, 1⟩).x
+      (addRaw ((3 : Toy.K) + 3 + 3) ⟨1, 2, 1⟩ ⟨3, 2, 1⟩).y (addRaw ((3 : Toy.K) + 3 + 3) ⟨1, 2, 1⟩ ⟨3, 2, 1⟩).z
+    = wAdd (0 : Toy.K) (homToAffine 1 2 1) (homToAffine 3 2 1) :=
+  bn_add_spec_partial 3 ⟨1, 2, 1⟩ ⟨3, 2, 1⟩ (by unfold POn; decide) (by unfold POn; decide)
+    (by decide) (by decide) (by decide) (by decide)
+
+/-- Affine reading of Algorithm 8 (mixed addition); PARTIAL as above (`Z₃ ≠ 0`). -/
+theorem bn_mixed_spec_partial (b : F) (P : Proj F) (x2 y2 : F) (h1 : POn b P)
+    (h2 : y2 * y2 = x2 * x2 * x2 + b) (hz1 : P.z ≠ 0) (hu : x2 * P.z - P.x ≠ 0)
+    (hz3 : (addMixedRaw (b + b + b) P x2 y2).z ≠ 0) :
+    homToAffine (addMixedRaw (b + b + b) P x2 y2).x (addMixedRaw (b + b + b) P x2 y2).y
+        (addMixedRaw (b + b + b) P x2 y2).z
+      = wAdd (0 : F) (homToAffine P.x P.y P.z) (some (x2, y2)) :=
+  addMixedRaw_affine b P x2 y2 h1 h2 hz1 hu hz3
+
+example : homToAffine (addMixedRaw ((3 : Toy.K) + 3 + 3) ⟨1, 2, 1⟩ 3 2).x
+      (addMixedRaw ((3 : Toy.K) + 3 + 3) ⟨1, 2, 1⟩ 3 2).y (addMixedRaw ((3 : Toy.K) + 3 + 3) ⟨1, 2, 1⟩ 3 2).z
+    = wAdd (0 : Toy.K) (homToAffine 1 2 1) (some (3, 2)) :=
+  bn_mixed_spec_partial 3 ⟨1, 2, 1⟩ 3 2 (by unfold POn; decide) (by decide) (by decide) (by decide)
+    (by decide)
+
+/-- Affine reading of Algorithm 9 (doubling) for `Y ≠ 0`: the tangent law; PARTIAL (`Z₃ ≠ 0`). -/
+theorem bn_double_spec_partial (b : F) (P : Proj F) (h1 : POn b P) (hz1 : P.z ≠ 0)
+    (hy : P.y + P.y ≠ 0) (hz3 : (doubleRaw (b + b + b) P).z ≠ 0) :
+    homToAffine (doubleRaw (b + b + b) P).x (doubleRaw (b + b + b) P).y (doubleRaw (b + b + b) P).z
+      = wAdd (0 : F) (homToAffine P.x P.y P.z) (homToAffine P.x P.y P.z) :=
+  doubleRaw_affine b P h1 hz1 hy hz3
+
+example : homToAffine (doubleRaw ((3 : Toy.K) + 3 + 3) ⟨1, 2, 1⟩).x
+      (doubleRaw ((3 : Toy.K) + 3 + 3) ⟨1, 2, 1⟩).y (doubleRaw ((3 : Toy.K) + 3 + 3) ⟨1, 2, 1⟩).z
+    = wAdd (0 : Toy.K) (homToAffine 1 2 1) (homToAffine 1 2 1) :=
+  bn_double_spec_partial 3 ⟨1, 2, 1⟩ (by unfold POn; decide) (by decide) (by decide) (by decide)
+
+/-- `Curve::to_affine` of `derive/curve.rs` is the homogeneous normalisation `(X/Z, Y/Z)`, with
+`Z = 0` sent to the affine identity. -/
+theorem bn_to_affine_spec (P : Proj F) : toAffine P = homToAffine P.x P.y P.z := toAffine_eq_hom P
+
+/-- `CurveExt::jacobian_coordinates` (homogeneous → `(XZ, YZ², Z)`): the returned triple, read as
+Jacobian coordinates `(X/Z², Y/Z³)`, is the same affine point (DESIGN: `jacobian_roundtrip`; for
+G1/G2 the accessor returns the raw Jacobian triple of blst — the D4 fix — and the statement is
+the identity). -/
+theorem jacobian_roundtrip (P : Proj F) :
+    let j := jacobianCoordinates P
+    jacToAffine j.1 j.2.1 j.2.2 = homToAffine P.x P.y P.z := jacobian_coordinates_spec P
+
+/-- `ct_eq` of `g1.rs` / `g2.rs` after the D4 fix (`x₁z₂² = x₂z₁²`, `y₁z₂³ = y₂z₁³`, identities
+apart) is true exactly when the two Jacobian triples denote the same affine point. -/
+theorem ct_eq_iff_affine_eq (x1 y1 z1 x2 y2 z2 : F) :
+    jacCtEq x1 y1 z1 x2 y2 z2 = true ↔ jacToAffine x1 y1 z1 = jacToAffine x2 y2 z2 := by
+  by_cases h1 : z1 = 0 <;> by_cases h2 : z2 = 0
+  · simp [jacCtEq, jacToAffine, h1, h2]
+  · simp [jacCtEq, jacToAffine, h1, h2]
+  · simp [jacCtEq, jacToAffine, h1, h2]
+  · have := jac_eq_iff x1 y1 z1 x2 y2 z2 h1 h2
+    simp only [jacCtEq, h1, h2, decide_false, Bool.false_and, Bool.not_false, Bool.true_and,
+      Bool.false_or, Bool.and_eq_true, decide_eq_true_eq]
+    exact this
+
+example : jacToAffine (4 : Toy.K) 8 2 = jacToAffine 1 1 1 :=
+  (ct_eq_iff_affine_eq (4 : Toy.K) 8 2 1 1 1).1 (by decide)
+
+example : homToAffine (2 : Toy.K) 4 2 = homToAffine 1 2 1 :=
+  (bn_ct_eq_iff_affine_eq (2 : Toy.K) 4 2 1 2 1).1 (by decide)
+
+/-- `ct_eq` / `PartialEq` of `derive/curve.rs` (`x₁z₂ = x₂z₁`, `y₁z₂ = y₂z₁`, identities apart)
+decides equality of the affine values. -/
+theorem bn_ct_eq_iff_affine_eq (x1 y1 z1 x2 y2 z2 : F) :
+    homCtEq x1 y1 z1 x2 y2 z2 = true ↔ homToAffine x1 y1 z1 = homToAffine x2 y2 z2 := by
+  by_cases h1 : z1 = 0 <;> by_cases h2 : z2 = 0
+  · simp [homCtEq, homToAffine, h1, h2]
+  · simp [homCtEq, homToAffine, h1, h2]
+  · simp [homCtEq, homToAffine, h1, h2]
+  · have := hom_eq_iff x1 y1 z1 x2 y2 z2 h1 h2
+    simp only [homCtEq, h1, h2, decide_false, Bool.false_and, Bool.not_false, Bool.true_and,
+      Bool.false_or, Bool.and_eq_true, decide_eq_true_eq]
+    exact this
+
+end weierstrass
 
 /-! ## Constants of the Rust sources (regenerated into `Gen/C11Constants.lean` on every run) -/
 section constants
